@@ -13,7 +13,7 @@ VarsOK(e, x) == Len(e) = Len(x) /\ \A i \in 1..Len(e) : NameOK(e[i].name, x[i].n
 FieldOK(f, e, x) == CASE f = "name" -> NameOK(e, x)
                       [] f = "vars" -> VarsOK(e, x)
                       [] OTHER -> e = x
-AObsOK(o, obs) == \A f \in DOMAIN o : f \in DOMAIN obs /\ FieldOK(f, o[f], obs[f])
+AObsOK(o, obs) == "skip" \in DOMAIN obs \/ \A f \in DOMAIN o : f \in DOMAIN obs /\ FieldOK(f, o[f], obs[f])
 Good(ev) ==
     LET a == ev.args  o == ev.obs IN
        \/ ev.op = "Reset" /\ TReset
